@@ -67,6 +67,8 @@ static void ledger_release_all(void)
     ledger_live = 0;
 }
 
+/* per case: grants, releases and refusals go through the library's default allocator a_alloc_ (1) or straight to the C library (0) */
+static int native_alloc;
 static void *vf_alloc_fn(void *addr, a_size size)
 {
     if (size)
@@ -79,6 +81,15 @@ static void *vf_alloc_fn(void *addr, a_size size)
             fault_fired = 1;
             ++fired_total;
             if (fired_req_in_op < 0) { fired_req_in_op = req_in_op; }
+            if (native_alloc)
+            {
+                /* the refusal comes from the library's OWN default allocator: the request is passed on with a size the C library cannot satisfy, so that
+                   the failure branch of a_alloc_ runs (seeded change C07-L: a_alloc_ releases the old block when realloc fails - every container then
+                   reports the failure correctly and keeps a dangling pointer).  The old block must stay alive, exactly as with realloc. */
+                void *q = a_alloc_(addr, (a_size)-1 / 2);
+                VF_COUNT("refusal-produced-by-the-default-allocator-itself");
+                if (q) { fprintf(stderr, "h_oom: the C library granted SIZE_MAX/2 bytes\n"); exit(2); }
+            }
             return NULL; /* like realloc: the old block stays alive */
         }
         if (addr)
@@ -90,9 +101,9 @@ static void *vf_alloc_fn(void *addr, a_size size)
                 vf_viol(key, "resize of %p", addr);
                 return NULL;
             }
-            p = realloc(addr, size);
+            p = native_alloc ? a_alloc_(addr, size) : realloc(addr, size);
         }
-        else { p = malloc(size); }
+        else { p = native_alloc ? a_alloc_(NULL, size) : malloc(size); }
         if (!p) { fprintf(stderr, "h_oom: real out of memory\n"); exit(2); }
         ledger_add(p, size);
         return p;
@@ -106,7 +117,7 @@ static void *vf_alloc_fn(void *addr, a_size size)
             vf_viol(key, "release of %p which is not a live block of the allocator", addr);
             return NULL;
         }
-        free(addr);
+        if (native_alloc) { (void)a_alloc_(addr, 0); } else { free(addr); }
     }
     return NULL;
 }
@@ -831,6 +842,7 @@ static void vf_case(uint64_t c, vf_rng *r)
 {
     uint64_t A;
     cmp_style = (int)(vf_hash64(0xC7, c) >> 9 & 3);
+    native_alloc = (int)(vf_hash64(0xC70, c) >> 13 & 1); /* every other case: through the library's default allocator */
     gen_history(r);
     vf_log("history: kind %s, %d ops", kind_names[Hkind], Hn);
     for (int i = 0; i < Hn; ++i) { vf_log(" %d:%s(a=%zu,b=%zu,key=%u)", i, op_names[H[i].op], H[i].a, H[i].b, H[i].key); }
